@@ -19,5 +19,6 @@ def obligations(tier):
     c9 = __import__('C09').obligations(tier)
     obs += [o for o in c9 if o.name.startswith('drv.')]
     obs += [o for o in txobs.pairing('quick') if 'tx_create' in o.name or 'tx_freed' in o.name]
+    obs += [so.res_step(1)]      # an unmatched response gets its placeholder transaction through htp_connp_tx_create (max_tx), never directly
     obs += [o for o in __import__('C07').obligations(tier) if '.layers.' in o.name]     # steady state: the previous message's decompressor is released
     return obs
